@@ -144,6 +144,71 @@ fn judge(run: &Run, out: &CaseOut, t: &str, entry: Entry, opt: usize, input: &[u
 
 // ------------------------------------------------------------------ suspected hangs at end of input
 
+/// Signature of the class "a reader entry point does not return when the
+/// character stream ends inside a directive line".
+const DIRECTIVE_SIG: &str = "C01:hang:reader:directive-at-eof";
+
+/// Start-up probe for that class: one representative per reader entry point
+/// (plus a few variants through one of them) in a child with RLIMIT_CPU and
+/// RLIMIT_AS. If a child does not finish normally the class is reported once and
+/// its members are skipped in-process (`oracle::GATE_CLOSED`); otherwise the
+/// class runs in-process like everything else.
+fn directive_gate(run: &Run) {
+    let exe = std::env::current_exe().expect("current_exe");
+    let mut reps: Vec<(Entry, Vec<u8>)> = Vec::new();
+    for e in Entry::ALL {
+        if e.is_reader() {
+            reps.push((e, b"%".to_vec()));
+        }
+    }
+    for v in [&b"%YAML"[..], b"a: b\n%x", b"--- a\n...\n%TAG", b"\xEF\xBB\xBF%a", b"%FOO bar", b"\xFF\xFE%\0a\0"] {
+        reps.push((Entry::ReaderC7, v.to_vec()));
+    }
+    let closed = AtomicBool::new(false);
+    par_range_chunk(reps.len(), 1, |i| {
+        let (e, input) = &reps[i];
+        let cpu = CPU_BOUND_S as u64 + 1;
+        match child::run_case_limits(&exe, *e, "Val", 0, input, cpu, 600, true, Some(1 << 30)) {
+            Err(err) => run.inconclusive(&format!("directive gate: child spawn failed: {err}")),
+            Ok((o, c)) => {
+                run.eval();
+                run.count("directive_gate_children", 1);
+                match c {
+                    ChildClass::Returned(v) => {
+                        if let Some(p) = v.get("panic").and_then(|p| p.as_str()) {
+                            report(run, &format!("C01:panic:{}", panic_site(p)), case_json("child", "release", "Val", *e, 0, input, None, "directive-gate"), p.to_string());
+                        }
+                        run.nontrivial(fnv_parts(&[b"gate", input, e.name().as_bytes()]));
+                    }
+                    ChildClass::Inconclusive(w) if o.timed_out => run.inconclusive(&format!("directive gate: {w}")),
+                    _ => {
+                        // killed by the CPU limit, allocation failure under the memory limit, or any other abnormal end
+                        closed.store(true, Ordering::SeqCst);
+                        report(
+                            run,
+                            DIRECTIVE_SIG,
+                            case_json("child", "release", "Val", *e, 0, input, None, "directive-gate"),
+                            format!(
+                                "reader entry point did not return on a directive line that runs into end of input: child (RLIMIT_CPU {cpu} s, RLIMIT_AS 1 GiB) ended as {c:?} signal {:?} after {:.1} s CPU, maxrss {} KiB; {}",
+                                o.signal.map(child::signal_name),
+                                o.user_s + o.sys_s,
+                                o.max_rss_kb,
+                                child::stderr_head(&o)
+                            ),
+                        );
+                    }
+                }
+            }
+        }
+    });
+    if closed.load(Ordering::SeqCst) {
+        oracle::GATE_CLOSED.store(true, Ordering::SeqCst);
+        run.note("directive gate CLOSED: members of the class (character stream ends inside a line starting with '%') are skipped for reader entry points in-process and counted");
+    } else {
+        run.note("directive gate open: the class 'directive line running into end of input' returns normally in a child for every reader entry point; its members run in-process");
+    }
+}
+
 enum Confirm {
     Pending(Vec<(Value, String)>),
     Confirmed(String),
@@ -158,7 +223,7 @@ static SPIN: Mutex<std::collections::BTreeMap<&'static str, Confirm>> = Mutex::n
 /// in a child process whose reader never gives up, against the CPU bound.
 fn judge_spin(run: &Run, case: Value, msg: &str, t: &str, entry: Entry, opt: usize, input: &[u8]) {
     let class = oracle::spin_class(input, opt);
-    let sig = format!("C01:hang:reader-eof-spin:{class}");
+    let sig = if class == "directive-line-at-eof" { DIRECTIVE_SIG.to_string() } else { format!("C01:hang:reader-eof-spin:{class}") };
     run.count(&format!("suspected_hangs(reader fuel exhausted)/{class}"), 1);
     {
         let mut g = SPIN.lock().unwrap();
@@ -332,6 +397,36 @@ fn heavy(p: &Patho) -> bool {
     (p.shape == "complex-key" && p.param > 200 && p.param <= 2000) || p.shape == "anchored-map"
 }
 
+/// Inputs whose single call holds hundreds of MiB (every open anchor records every event).
+fn heavy_mem(p: &Patho) -> bool {
+    p.shape == "anchored-map"
+}
+
+/// Counting semaphore: at most `MAX_HEAVY` memory-heavy calls / children at a time.
+struct Sem {
+    n: Mutex<usize>,
+    cv: std::sync::Condvar,
+}
+const MAX_HEAVY: usize = 3;
+static HEAVY: Sem = Sem { n: Mutex::new(0), cv: std::sync::Condvar::new() };
+struct Permit;
+impl Sem {
+    fn acquire(&self) -> Permit {
+        let mut g = self.n.lock().unwrap();
+        while *g >= MAX_HEAVY {
+            g = self.cv.wait(g).unwrap();
+        }
+        *g += 1;
+        Permit
+    }
+}
+impl Drop for Permit {
+    fn drop(&mut self) {
+        *HEAVY.n.lock().unwrap() -= 1;
+        HEAVY.cv.notify_one();
+    }
+}
+
 fn patho_opts(p: &Patho) -> &'static [usize] {
     match p.family {
         "robotics-expr" => &[4, 0],
@@ -418,12 +513,13 @@ fn run_probes(run: &Run, exe: &Path, profile: &str, pathos: &[Patho], tier: Tier
     par_range_chunk(plan.len(), 1, |i| {
         let pr = &plan[i];
         let p = &pathos[pr.patho];
+        let _permit = if heavy_mem(p) { Some(HEAVY.acquire()) } else { None };
         match child::run_case(exe, pr.entry, pr.target, pr.opt, &p.bytes, 300, 900) {
             Err(e) => run.inconclusive(&format!("child spawn failed: {e}")),
             Ok((o, c)) => {
                 run.eval();
                 run.count(&format!("child_probes/{profile}/{}", p.family), 1);
-                run.max(&format!("child_max_rss_kib/{profile}"), o.max_rss_kb.max(0) as u64);
+                run.max(&format!("child_max_cpu_ms/{profile}/{}:{}", p.family, p.shape), ((o.user_s + o.sys_s) * 1e3) as u64);
                 judge_child(run, profile, p.family, &o, &c, pr.target, pr.entry, pr.opt, &p.bytes, Some(p));
                 let key = format!("{}:{}", p.family, p.shape);
                 let mut st = stat.lock().unwrap();
@@ -642,6 +738,7 @@ fn main() {
         replay(run, rep);
     }
     start_monitor(run);
+    directive_gate(run);
     let tier = run.tier;
     let all_targets = targets::all();
     let cross: Vec<Tgt> = CROSS_TARGETS.iter().map(|n| targets::by_name(n).expect("cross target")).collect();
@@ -834,6 +931,18 @@ fn main() {
             }
             for t in &all_targets {
                 let deep = DEEP_TARGETS.contains(&t.name());
+                // quick tier: the targets that stop at the first type mismatch see the nests only at the
+                // limit itself, and the large documents only through a representative subset
+                if tier == Tier::Quick && !deep {
+                    let at_limit = match p.family {
+                        "block-nest" => [2000, 2001].contains(&p.param),
+                        "flow-nest" => [255, 256].contains(&p.param),
+                        _ => ["Mixed", "Strict", "VecString", "String", "TupU8Str", "f64"].contains(&t.name()),
+                    };
+                    if !at_limit {
+                        continue;
+                    }
+                }
                 let entries: &[Entry] = if deep {
                     &[Entry::FromStr, Entry::FromSlice, Entry::ReaderC7, Entry::FromMultiple, Entry::ReadIter, Entry::WithDeReader]
                 } else {
@@ -844,7 +953,8 @@ fn main() {
                     if !deep && opt != patho_opts(p)[0] {
                         continue;
                     }
-                    if opt == 1 && !(p.family == "flow-nest" || (p.family == "block-nest" && p.param == 2001)) {
+                    // budget off: only where the parser's own limit (flow) or a cheap shape bounds the work
+                    if opt == 1 && !(p.family == "flow-nest" || (p.family == "block-nest" && p.param == 2001 && p.shape != "complex-key")) {
                         continue;
                     }
                     for &e in entries {
@@ -865,6 +975,7 @@ fn main() {
         }
         par_range_chunk(jobs.len(), 1, |i| {
             let j = &jobs[i];
+            let _permit = if heavy_mem(j.p) { Some(HEAVY.acquire()) } else { None };
             let out = oracle::exercise(j.t, j.e, j.opt, &j.p.bytes);
             if !out.applicable {
                 return;
@@ -932,6 +1043,13 @@ fn main() {
         CPU_BOUND_S * 1e9 / ld(&STATS.small_cpu_ns_max).max(1) as f64,
         ld(&STATS.small_cpu_ns_max) / 1000
     ));
+    run.count("skipped/reader-directive-at-eof", oracle::SKIPPED_CLASS.load(Ordering::Relaxed));
+    {
+        let g = oracle::SMALL_MAX.lock().unwrap();
+        if g.0 > 0 {
+            run.note(format!("most expensive call on an input <= 64 KiB: {:.3} s CPU: {}", g.0 as f64 / 1e9, g.1));
+        }
+    }
     for k in oracle::KINDS.lock().unwrap().iter() {
         run.observe("error_kinds", k);
     }
